@@ -52,6 +52,8 @@ def tags_of(case):
     t = set()
     if case.get("parentrule"):
         t.add("pat.file_ignored_only_by_excluded_parent_directory")
+    if case.get("negdirrule"):
+        t.add("pat.negated_directory_pattern_above_ignored_file")
     for p in case["patterns"]:
         if p.startswith("!"):
             t.add("pat.negation")
